@@ -484,6 +484,11 @@ func sameValueExpr(a, b ssa.Value, depth int) bool {
 			if x.Call.Method != y.Call.Method || !sameValueExpr(x.Call.Value, y.Call.Value, depth-1) {
 				return false
 			}
+		} else if bx, ok := x.Call.Value.(*ssa.Builtin); ok {
+			by, ok := y.Call.Value.(*ssa.Builtin)
+			if !ok || bx.Name() != by.Name() || bx.Name() != "len" {
+				return false
+			}
 		} else if x.Call.StaticCallee() == nil || x.Call.StaticCallee() != y.Call.StaticCallee() {
 			return false
 		}
